@@ -8,7 +8,8 @@ OUT=/tmp/seedout-$NAME
 if [ -d "$WT/SEED_OUT" ]; then rm -rf "$OUT"; cp -r "$WT/SEED_OUT" "$OUT" || exit 2; fi
 [ -f "$OUT/patch.diff" ] || { echo "no seed output for $NAME"; exit 2; }
 cd "$WT" || exit 2
-git checkout -q -- . ; git clean -fdq -e target
+if [ "${SKIP_CONFIRM:-0}" != "1" ]; then git checkout -q -- . ; git clean -fdq -e target; fi
+if [ "${SKIP_CONFIRM:-0}" != "1" ]; then
 git apply "$OUT/demo.diff" || { echo "demo.diff does not apply"; exit 2; }
 cargo test --workspace --offline "$FILTER" >"$OUT/confirm.log" 2>&1; rc_without=$?
 git apply "$OUT/patch.diff" || { echo "patch.diff does not apply"; exit 2; }
@@ -17,6 +18,7 @@ cargo test --workspace --no-fail-fast --offline > "$OUT/suite_with.log" 2>&1
 failed=$(grep -E "^test .* FAILED$" "$OUT/suite_with.log" | grep -v "$FILTER" | wc -l)
 passed=$(grep -E "^test result: " "$OUT/suite_with.log" | awk '{s+=$4} END {print s}')
 echo "confirm: demo without change rc=$rc_without (want 0), with change rc=$rc_with (want != 0); other failing tests with change: $failed; tests passed: $passed" | tee "$OUT/confirm.txt"
+fi
 # harness copy bound to the worktree
 H=/tmp/evalh
 rm -rf $H; mkdir -p $H; rsync -a --exclude target /verif/harness/ $H/
